@@ -24,6 +24,7 @@ type Ctx struct {
 	hold           *holderTypes
 	wparams        map[*ssa.Function]map[int]bool
 	denomOrd       map[string]int
+	maccVar        string
 	claimStepsDone bool
 	claimStepFns   []*ssa.Function
 }
